@@ -15,8 +15,15 @@ mutex_t g_blk_locks[NO_GLU_LOCKS]; pan_status_t g_blk_pan[CAP + 1]; qitem_t g_bl
 #error "extend REP"
 #endif
 static void *bad_request(void) { g_bad_request = 1; __CPROVER_assert(0, "allocator model: unexpected request"); __CPROVER_assume(0); return (void *)0; }
+#ifndef OOM
+#define OOM 0
+#endif
+_Bool nondet_bool(void);
 void *superlu_malloc(size_t size) {
   int k = g_n_smalloc++;
+#if OOM   /* unit parallel_init_oom (C14): any of the three requests may fail */
+  if (nondet_bool()) return (void *)0;
+#endif
   if (k == 0 && size == NO_GLU_LOCKS * sizeof(mutex_t)) return g_blk_locks;
   if (k == 1 && size % sizeof(pan_status_t) == 0 && size / sizeof(pan_status_t) <= CAP + 1) return g_blk_pan + (CAP + 1 - size / sizeof(pan_status_t));
   if (k == 2 && size % sizeof(qitem_t) == 0 && size / sizeof(qitem_t) <= CAP) return g_blk_queue + (CAP - size / sizeof(qitem_t));
@@ -35,7 +42,7 @@ int_t *intCalloc(int_t n) {
   return g_blk_spin + (CAP - n);
 }
 /* trusted: pthread_mutex_init succeeds; the lock object itself is not modelled */
-int pthread_mutex_init(pthread_mutex_t *m, const pthread_mutexattr_t *a) { g_n_mutex_init++; return 0; }
+int pthread_mutex_init(pthread_mutex_t *m, const pthread_mutexattr_t *a) { __CPROVER_assert(m != (pthread_mutex_t *)0, "pthread_mutex_init gets an allocated mutex object"); g_n_mutex_init++; return 0; }
 int fprintf(FILE *f, const char *fmt, ...) { return 0; }
 void h_parinit(void) {
   int_t hw = in_opt.panel_size > in_opt.relax ? in_opt.panel_size : in_opt.relax;
